@@ -189,6 +189,19 @@ WRITE_KINDS = {'write_int32': 'i32', 'write_int64': 'i64', 'write_float32': 'f32
 READ_KINDS = {'read_int32': 'i32', 'read_int64': 'i64', 'read_float32': 'f32', 'read_float64': 'f64', 'read_bool': 'bool'}
 
 
+def _always_exits(stmts: Sequence[ast.stmt]) -> bool:
+    for st in stmts:
+        if isinstance(st, (ast.Return, ast.Raise)):
+            return True
+        if isinstance(st, ast.If) and st.orelse and _always_exits(st.body) and _always_exits(st.orelse):
+            return True
+    return False
+
+
+def _only_raise(stmts: Sequence[ast.stmt]) -> bool:
+    return len(stmts) >= 1 and isinstance(stmts[-1], ast.Raise) and not any(isinstance(n, ast.Return) for st in stmts for n in ast.walk(st))
+
+
 def _only_raises(fn: pf.FuncDef) -> bool:
     b = body_wo_doc(fn)
     return len(b) == 1 and isinstance(b[0], ast.Raise)
@@ -202,12 +215,16 @@ class Extractor:
         self.side = side  # 'w' | 'r'
         self.where = f'{m.rel}::{cls}.{fn.name}'
         ps = param_names(fn)
+        self.inlined: List[str] = []
         if fn.args.vararg is not None or len(ps) < 2:
             self.stream = None
             self.value = None
         else:
             self.stream = ps[1]
             self.value = ps[2] if len(ps) > 2 and side == 'w' else None
+            # helpers that receive the stream (extracted missing-bit writers, shared readers, ...) are analysed in place
+            self.fn, self.inlined = inline_stream_helpers(m, cls, fn, self.stream)
+        self.selfname = ps[0] if ps else 'self'
 
     def fail(self, node: Optional[ast.AST], msg: str):
         ln = getattr(node, 'lineno', self.fn.lineno)
@@ -221,18 +238,43 @@ class Extractor:
         return self.seq(body_wo_doc(self.fn))
 
     # -- statements --------------------------------------------------------
-    def seq(self, stmts: Sequence[ast.stmt]) -> List[tuple]:
+    def _writes_byte(self, st: ast.AST) -> bool:
+        return any(isinstance(n, ast.Call) and isinstance(n.func, ast.Attribute) and n.func.attr == 'write_byte' and isinstance(n.func.value, ast.Name)
+                   and n.func.value.id == self.stream for n in ast.walk(st))
+
+    def seq(self, stmts: Sequence[ast.stmt], before: Sequence[ast.stmt] = ()) -> List[tuple]:
+        """`before`: statements executed before this block (enclosing blocks' prefixes), context for the missing-bit evaluator."""
         out: List[tuple] = []
+        stmts = list(stmts)
+        region: Tuple[int, int] = (-1, -1)
+        if self.side == 'w':
+            hits = [i for i, st in enumerate(stmts) if not isinstance(st, (ast.FunctionDef, ast.AsyncFunctionDef, ast.ClassDef)) and self._writes_byte(st)]
+            # a block that merely *contains* the region deeper down (an enclosing `if`) is handled when the recursion reaches it
+            if hits and all(isinstance(stmts[i], (ast.While, ast.For, ast.Expr)) or (isinstance(stmts[i], ast.If) and not self._other_stream_ops(stmts[i])) for i in hits):
+                region = (hits[0], hits[-1])
         for idx, st in enumerate(stmts):
+            if region[0] <= idx <= region[1]:
+                if idx == region[0]:
+                    out.append(self.missing_region(stmts[region[0]:region[1] + 1], list(before) + stmts[:region[0]]))
+                continue
             if isinstance(st, (ast.FunctionDef, ast.AsyncFunctionDef, ast.ClassDef)):
                 if mentions(st, self.stream):
                     self.fail(st, 'nested definition touches the byte stream (unrecognised idiom)')
                 continue
+            rest = stmts[idx + 1:]
+            if isinstance(st, ast.If) and not st.orelse and rest and _always_exits(st.body) and any(mentions(r, self.stream) for r in rest):
+                # early exit: `if c: ...; return` followed by more stream operations  ==  if c: ... else: <rest>
+                if mentions(st.test, self.stream):
+                    self.fail(st, 'branch condition reads the byte stream')
+                if _only_raise(st.body) and not mentions(st, self.stream):
+                    continue  # an error guard (`if bad: raise`) does not select a layout
+                out.append(('cond', st.test, self.seq(st.body, list(before) + stmts[:idx]), self.seq(rest, list(before) + stmts[:idx + 1]), dict(node=st, early_return=True)))
+                return out
             if not mentions(st, self.stream):
                 continue
             if isinstance(st, ast.While):
                 if self.side == 'w':
-                    out.append(self.missing_writer(st, stmts[:idx]))
+                    self.fail(st, 'while loop around stream operations other than the missing bytes on the writer side')
                 else:
                     out.append(self.while_reader(st, stmts[:idx]))
             elif isinstance(st, ast.For):
@@ -240,11 +282,11 @@ class Extractor:
                     self.fail(st, 'for/else around stream operations')
                 if mentions(st.iter, self.stream):
                     self.fail(st, 'loop iterable touches the byte stream')
-                out.append(('loop', dict(iter=st.iter, target=st.target, kind='for', node=st), self.seq(st.body)))
+                out.append(('loop', dict(iter=st.iter, target=st.target, kind='for', node=st), self.seq(st.body, list(before) + stmts[:idx])))
             elif isinstance(st, ast.If):
                 if mentions(st.test, self.stream):
                     self.fail(st, 'branch condition reads the byte stream')
-                out.append(('cond', st.test, self.seq(st.body), self.seq(st.orelse), dict(node=st)))
+                out.append(('cond', st.test, self.seq(st.body, list(before) + stmts[:idx]), self.seq(st.orelse, list(before) + stmts[:idx]), dict(node=st)))
             elif isinstance(st, ast.Assign):
                 if len(st.targets) != 1:
                     self.fail(st, 'multiple assignment targets around a stream operation')
@@ -369,6 +411,25 @@ class Extractor:
                 self.fail(st, 'break/continue in a counted stream loop')
         return i, init, t.comparators[0], last, st.body[:-1]
 
+    def _other_stream_ops(self, st: ast.AST) -> List[ast.AST]:
+        """Uses of the stream inside st other than `stream.write_byte(...)`."""
+        ok_names = set()
+        for n in ast.walk(st):
+            if isinstance(n, ast.Call) and isinstance(n.func, ast.Attribute) and n.func.attr == 'write_byte' and isinstance(n.func.value, ast.Name) and n.func.value.id == self.stream:
+                ok_names.add(id(n.func.value))
+        return [n for n in ast.walk(st) if isinstance(n, ast.Name) and n.id == self.stream and id(n) not in ok_names]
+
+    def missing_region(self, stmts: Sequence[ast.stmt], before: Sequence[ast.stmt]) -> tuple:
+        """The statements that compute and write the missing bytes (first to last statement calling write_byte in one block).
+        They are not pattern-matched: rules evaluate them with MissingBitsEval over a symbolic missingness vector."""
+        for st in stmts:
+            bad = self._other_stream_ops(st)
+            if bad:
+                self.fail(bad[0], 'the statements that write the missing bytes also perform other stream operations (unrecognised idiom)')
+        info = dict(stmts=list(stmts), before=[b for b in before if not isinstance(b, (ast.FunctionDef, ast.AsyncFunctionDef, ast.ClassDef))], node=stmts[0], semantic=True,
+                    where=self.where, selfname=self.selfname, stream=self.stream, value=self.value, inlined=list(self.inlined))
+        return ('missing_w', info)
+
     def missing_writer(self, st: ast.While, before: Sequence[ast.stmt]) -> tuple:
         i, init, n, inc, body = self._counted_while(st, before)
         # body: acc = 0 ; for j in range(min(C, N - i)): if <missing>(subject[idx]): acc |= 1 << f(j) ; write_byte(acc)
@@ -445,7 +506,7 @@ def show_program(prog: Sequence[tuple]) -> str:
         elif k == 'cond':
             parts.append(f'IF[{pf.nsrc(it[1])[:50]}]{{' + show_program(it[2]) + '}{' + show_program(it[3]) + '}')
         elif k == 'missing_w':
-            parts.append('MISSINGBYTES(' + pf.nsrc(it[1]['n']) + ')')
+            parts.append('MISSINGBYTES(' + (pf.nsrc(it[1]['n']) if it[1].get('n') is not None else '…') + ')')
         elif k == 'raise':
             parts.append('RAISE')
     return ' '.join(parts)
@@ -757,6 +818,11 @@ class _FnState:
                     return ('class', self.cname, e.attr)
                 if v.id in self.module_classes and v.id not in self.locals:
                     return ('class', v.id, e.attr)
+                if self.selfname and v.id in self.locals and v.id not in self.params:
+                    # `cls = type(self)` / `cls = self.__class__` followed by cls.<attr>
+                    ds = self.defs.get(v.id, [])
+                    if len(ds) == 1 and pf.nsrc(ds[0]) in (f'type({self.selfname})', f'{self.selfname}.__class__'):
+                        return ('class', self.cname, e.attr)
             if self.selfname and ((isinstance(v, ast.Attribute) and v.attr == '__class__' and isinstance(v.value, ast.Name) and v.value.id == self.selfname)
                                   or (isinstance(v, ast.Call) and pf.dotted(v.func) == 'type' and len(v.args) == 1 and isinstance(v.args[0], ast.Name) and v.args[0].id == self.selfname)):
                 return ('class', self.cname, e.attr)
@@ -1046,3 +1112,1108 @@ def codec_state(m: pf.Module, classes: Dict[str, ast.ClassDef], is_codec) -> Tup
         findings.append(StateFinding('undecided', cons, f'{where} reads and writes {lt} ({scope}) in a shape that is not a recognised memo (forms: writes {sorted({w["form"] for w in ws})}, '
                                                         f'reads {sorted({r["form"] for r in vreads})}): cannot decide whether results depend on history', line))
     return findings, len(roots)
+
+
+# --------------------------------------------------------------------------------------
+# seeing through helpers that receive the byte stream
+# --------------------------------------------------------------------------------------
+
+
+def inline_stream_helpers(m: pf.Module, cls_name: str, fn: pf.FuncDef, stream: str, conv_names: Tuple[str, ...] = ('_convert_to_encoding', '_convert_from_encoding'),
+                          max_rounds: int = 3) -> Tuple[pf.FuncDef, List[str]]:
+    """Copy of `fn` in which statement-level calls that pass the byte stream `stream` to a helper defined in the same module
+    (a method of the class or of one of its bases called as self.h(...) / Cls.h(...), static or not, or a module-level function) are
+    replaced by the helper's body (engines/inline.py does the substitution).  Calls it cannot inline are left alone (the extractor then
+    declines on them).  Returns (function, names of the helpers inlined); `fn` itself when nothing was inlined."""
+    from . import inline as INL
+    all_cls = {c.name: c for c in m.tree.body if isinstance(c, ast.ClassDef)}
+    top_funcs = {f.name: f for f in m.tree.body if isinstance(f, ast.FunctionDef)}
+
+    def mro_lookup(cn: str, meth: str, seen=()) -> Optional[pf.FuncDef]:
+        c = all_cls.get(cn)
+        if c is None or cn in seen:
+            return None
+        ms = methods(c)
+        if meth in ms:
+            return ms[meth]
+        for b in c.bases:
+            d = pf.dotted(b)
+            if d in all_cls:
+                r = mro_lookup(d, meth, seen + (cn,))
+                if r is not None:
+                    return r
+        return None
+
+    ps = param_names(fn)
+    selfname = ps[0] if ps else 'self'
+    cur = fn
+    inlined: List[str] = []
+    for _ in range(max_rounds):
+        work = copy.deepcopy(cur)
+        helpers: Dict[str, pf.FuncDef] = {}
+        n_rewritten = 0
+        for call in [n for n in ast.walk(work) if isinstance(n, ast.Call)]:
+            args = list(call.args) + [k.value for k in call.keywords]
+            if not any(isinstance(a, ast.Name) and a.id == stream for a in args):
+                continue
+            f = call.func
+            target: Optional[pf.FuncDef] = None
+            prepend_self = False
+            label = ''
+            if isinstance(f, ast.Attribute) and f.attr not in conv_names and isinstance(f.value, ast.Name):
+                if f.value.id == selfname:
+                    target = mro_lookup(cls_name, f.attr)
+                    label = f'{cls_name}.{f.attr}'
+                    prepend_self = target is not None and 'staticmethod' not in pf.decorator_names(target)
+                elif f.value.id in all_cls:
+                    target = mro_lookup(f.value.id, f.attr)
+                    label = f'{f.value.id}.{f.attr}'
+            elif isinstance(f, ast.Name) and f.id in top_funcs:
+                target = top_funcs[f.id]
+                label = f.id
+            if target is None:
+                continue
+            decos = pf.decorator_names(target)
+            if any(d not in ('staticmethod', 'typecheck', 'typecheck_method') for d in decos):
+                continue
+            if prepend_self and not param_names(target):
+                continue
+            new_name = '__inl_' + label.replace('.', '_')
+            if new_name not in helpers:
+                h = copy.deepcopy(target)
+                h.name = new_name
+                h.decorator_list = []
+                helpers[new_name] = h
+            call.func = ast.copy_location(ast.Name(id=new_name, ctx=ast.Load()), f)
+            if prepend_self:
+                call.args = [ast.copy_location(ast.Name(id=selfname, ctx=ast.Load()), f)] + list(call.args)
+            n_rewritten += 1
+        if not n_rewritten:
+            break
+        il = INL.Inliner(helpers, None, max_depth=2)
+        il.run(work)
+        if not il.inlined:
+            break
+        # calls that were rewritten but not inlined (not at statement level, non-tail return, ...) keep an unknown callee name: the extractor declines on them
+        inlined += [n[len('__inl_'):] for n, _ in il.inlined]
+        ast.fix_missing_locations(work)
+        cur = work
+    return cur, inlined
+
+
+# --------------------------------------------------------------------------------------
+# missing-bit regions: an evaluator of the extracted statements over a symbolic missingness vector
+# --------------------------------------------------------------------------------------
+#
+# The statements that compute and write the missing bytes of a container with N component slots are executed by the small
+# interpreter below (never by Python): integers, ranges and sequences are concrete (N is fixed per run, N = 0..MAX_N), the
+# missingness of slot k is a symbol m_k, and a byte accumulator is a map  bit position -> set of symbols OR-ed into it.
+# The bytes handed to write_byte are compared with the engine layout: ceil(N/8) bytes, byte b holds exactly slots 8b..8b+7,
+# slot e at bit e % 8.  Because every accumulator bit is a disjunction of symbols, agreement of the symbolic bytes is agreement
+# for all 2^N missingness vectors.
+
+MAX_N = 17
+CONST1 = -1  # pseudo-symbol: the bit is set unconditionally
+
+
+class ModelledError(Exception):
+    """The modelled program raises at run time (IndexError, struct.error, ...) for the evaluated N."""
+
+
+class _Elem:
+    def __init__(self, k: int):
+        self.k = k
+
+
+class _Key:
+    def __init__(self, k: int):
+        self.k = k
+
+    def __eq__(self, o):
+        return isinstance(o, _Key) and o.k == self.k
+
+    def __hash__(self):
+        return hash(('key', self.k))
+
+
+class _TypeC:
+    def __init__(self, k: int):
+        self.k = k
+
+
+class _Miss:
+    def __init__(self, k: int):
+        self.k = k
+
+
+class _Obj:
+    def __init__(self, kind: str):
+        self.kind = kind  # 'self' | 'value' | 'stream'
+
+
+class SymInt:
+    def __init__(self, bits: Optional[Dict[int, frozenset]] = None):
+        self.bits: Dict[int, frozenset] = {b: s for b, s in (bits or {}).items() if s}
+
+    @staticmethod
+    def of(v: Any) -> 'SymInt':
+        if isinstance(v, SymInt):
+            return v
+        if isinstance(v, _Miss):
+            return SymInt({0: frozenset([v.k])})
+        if isinstance(v, bool):
+            v = int(v)
+        if isinstance(v, int):
+            if v < 0:
+                raise AnalysisError('missing-bit evaluator: negative accumulator value')
+            return SymInt({b: frozenset([CONST1]) for b in range(v.bit_length()) if (v >> b) & 1})
+        raise AnalysisError(f'missing-bit evaluator: {type(v).__name__} used as a bit pattern')
+
+    def norm(self) -> Dict[int, frozenset]:
+        return {b: (frozenset([CONST1]) if CONST1 in s else s) for b, s in self.bits.items()}
+
+    def concrete(self) -> Optional[int]:
+        if all(CONST1 in s for s in self.bits.values()):
+            return sum(1 << b for b in self.bits)
+        return None
+
+    def __or__(self, o: 'SymInt') -> 'SymInt':
+        out = dict(self.bits)
+        for b, s in o.bits.items():
+            out[b] = out.get(b, frozenset()) | s
+        return SymInt(out)
+
+    def shift(self, n: int) -> 'SymInt':
+        return SymInt({b + n: s for b, s in self.bits.items() if b + n >= 0})
+
+    def mask(self, m: int) -> 'SymInt':
+        return SymInt({b: s for b, s in self.bits.items() if (m >> b) & 1})
+
+
+class _Break(Exception):
+    pass
+
+
+class _Continue(Exception):
+    pass
+
+
+class _Return(Exception):
+    pass
+
+
+class MissingBitsEval:
+    def __init__(self, where: str, selfname: str, stream: str, value: Optional[str], n: int):
+        self.where, self.n = where, n
+        self.env: Dict[str, Any] = {selfname: _Obj('self'), stream: _Obj('stream')}
+        if value:
+            self.env[value] = _Obj('value')
+        self.emitted: List[Tuple[SymInt, ast.AST]] = []
+        self.size_sources: Set[str] = set()
+        self.steps = 0
+
+    def fail(self, node: Optional[ast.AST], msg: str):
+        raise AnalysisError(f'{self.where} (line {getattr(node, "lineno", 0)}): missing-bit evaluator: {msg}')
+
+    # ---- sequences --------------------------------------------------------------
+    def seq_of(self, v: Any, node: ast.AST) -> List[Any]:
+        if isinstance(v, (list, tuple)):
+            return list(v)
+        if isinstance(v, range):
+            return list(v)
+        if isinstance(v, _Obj) and v.kind == 'value':
+            self.size_sources.add('value')
+            return [_Elem(k) for k in range(self.n)]
+        self.fail(node, f'cannot iterate over `{pf.nsrc(node)[:60]}`')
+        return []
+
+    # ---- expressions --------------------------------------------------------------
+    def ev(self, e: ast.AST) -> Any:
+        self.steps += 1
+        if self.steps > 200000:
+            self.fail(e, 'evaluation does not terminate')
+        if isinstance(e, ast.Constant):
+            return e.value
+        if isinstance(e, ast.Name):
+            if e.id in self.env:
+                return self.env[e.id]
+            if e.id in ('True', 'False', 'None'):
+                return {'True': True, 'False': False, 'None': None}[e.id]
+            self.fail(e, f'unbound name `{e.id}`')
+        if isinstance(e, (ast.List, ast.Tuple)):
+            vals = [self.ev(x) for x in e.elts]
+            return vals if isinstance(e, ast.List) else tuple(vals)
+        if isinstance(e, ast.Attribute):
+            base = self.ev(e.value)
+            if isinstance(base, _Obj) and base.kind == 'self':
+                if e.attr in ('types', '_types'):
+                    self.size_sources.add('fields')
+                    return [_TypeC(k) for k in range(self.n)]
+                if e.attr in ('fields', '_fields'):
+                    self.size_sources.add('fields')
+                    return [_Key(k) for k in range(self.n)]
+                if e.attr == '_field_types':
+                    return _Obj('fieldtypes')
+            self.fail(e, f'unsupported attribute `{pf.nsrc(e)[:60]}`')
+        if isinstance(e, ast.Subscript):
+            base = self.ev(e.value)
+            if isinstance(e.slice, ast.Slice):
+                self.fail(e, 'slicing')
+            idx = self.ev(e.slice)
+            if isinstance(base, _Obj) and base.kind == 'value':
+                if isinstance(idx, _Key):
+                    return _Elem(idx.k)
+                if isinstance(idx, int) and not isinstance(idx, bool):
+                    if not (-self.n <= idx < self.n):
+                        raise ModelledError(f'`{pf.nsrc(e)}` indexes slot {idx} of a value with {self.n} slot(s): IndexError')
+                    return _Elem(idx % self.n if self.n else 0)
+                self.fail(e, f'value indexed by `{pf.nsrc(e.slice)[:40]}`')
+            if isinstance(base, (list, tuple)) and isinstance(idx, int) and not isinstance(idx, bool):
+                if not (-len(base) <= idx < len(base)):
+                    raise ModelledError(f'`{pf.nsrc(e)}` indexes position {idx} of a sequence of length {len(base)} (n = {self.n}): IndexError')
+                return base[idx]
+            self.fail(e, f'unsupported subscript `{pf.nsrc(e)[:60]}`')
+        if isinstance(e, ast.UnaryOp):
+            v = self.ev(e.operand)
+            if isinstance(e.op, ast.Not):
+                if isinstance(v, (_Miss, SymInt)):
+                    self.fail(e, 'negated missingness in a value position')
+                return not v
+            if isinstance(v, (int, float)) and not isinstance(v, bool) or isinstance(v, bool):
+                return {ast.USub: lambda: -v, ast.UAdd: lambda: +v, ast.Invert: lambda: ~v}[type(e.op)]()
+            self.fail(e, 'unary operator on a symbolic value')
+        if isinstance(e, ast.BinOp):
+            return self.binop(e, self.ev(e.left), self.ev(e.right))
+        if isinstance(e, ast.BoolOp):
+            res: Any = None
+            for i_, v in enumerate(e.values):
+                res = self.ev(v)
+                if isinstance(res, (_Miss, SymInt)):
+                    if i_ == len(e.values) - 1:
+                        return res  # `concrete-guard and missing(x)`: the guards before it were decided concretely
+                    self.fail(e, 'missingness combined with and/or')
+                if isinstance(e.op, ast.And) and not res:
+                    return res
+                if isinstance(e.op, ast.Or) and res:
+                    return res
+            return res
+        if isinstance(e, ast.Compare):
+            left = self.ev(e.left)
+            for op, c in zip(e.ops, e.comparators):
+                right = self.ev(c)
+                for x in (left, right):
+                    if not isinstance(x, (int, float, str, type(None), _Key)) and not isinstance(x, bool):
+                        self.fail(e, f'comparison involving a symbolic or opaque value `{pf.nsrc(e)[:60]}`')
+                try:
+                    ok = {ast.Eq: lambda: left == right, ast.NotEq: lambda: left != right, ast.Lt: lambda: left < right, ast.LtE: lambda: left <= right,
+                          ast.Gt: lambda: left > right, ast.GtE: lambda: left >= right, ast.Is: lambda: left is right, ast.IsNot: lambda: left is not right}[type(op)]()
+                except KeyError:
+                    self.fail(e, 'unsupported comparison operator')
+                if not ok:
+                    return False
+                left = right
+            return True
+        if isinstance(e, ast.IfExp):
+            t = self.ev(e.test)
+            if isinstance(t, _Miss):
+                a, b = self.ev(e.body), self.ev(e.orelse)
+                if isinstance(b, int) and not isinstance(b, bool) and b == 0 and isinstance(a, int) and not isinstance(a, bool) and a >= 0:
+                    return SymInt({bit: frozenset([t.k]) for bit in range(a.bit_length()) if (a >> bit) & 1})
+                self.fail(e, 'conditional on missingness whose alternatives are not (bit pattern, 0)')
+            if isinstance(t, SymInt):
+                self.fail(e, 'conditional on a symbolic integer')
+            return self.ev(e.body) if t else self.ev(e.orelse)
+        if isinstance(e, (ast.ListComp, ast.GeneratorExp, ast.SetComp)):
+            out: List[Any] = []
+            saved = dict(self.env)
+
+            def gen(i: int):
+                if i == len(e.generators):
+                    out.append(self.ev(e.elt))
+                    return
+                g = e.generators[i]
+                for item in self.seq_of(self.ev(g.iter), g.iter):
+                    self.assign(g.target, item)
+                    if all(self.truth(c) for c in g.ifs):
+                        gen(i + 1)
+            gen(0)
+            self.env = saved
+            return out
+        if isinstance(e, ast.Call):
+            return self.call(e)
+        self.fail(e, f'unsupported expression `{pf.nsrc(e)[:60]}`')
+
+    def truth(self, e: ast.AST) -> bool:
+        v = self.ev(e)
+        if isinstance(v, (_Miss, SymInt)):
+            self.fail(e, 'missingness used as a filter')
+        return bool(v)
+
+    def binop(self, e: ast.BinOp, a: Any, b: Any) -> Any:
+        sym = isinstance(a, (SymInt, _Miss)) or isinstance(b, (SymInt, _Miss))
+        op = type(e.op)
+        if not sym:
+            for x in (a, b):
+                if not isinstance(x, (int, float)):
+                    if isinstance(x, (list, tuple)) and op is ast.Add and isinstance(a, type(b)):
+                        return a + b
+                    self.fail(e, f'arithmetic on `{type(x).__name__}`')
+            try:
+                return {ast.Add: lambda: a + b, ast.Sub: lambda: a - b, ast.Mult: lambda: a * b, ast.FloorDiv: lambda: a // b, ast.Div: lambda: a / b, ast.Mod: lambda: a % b,
+                        ast.LShift: lambda: a << b, ast.RShift: lambda: a >> b, ast.BitOr: lambda: a | b, ast.BitAnd: lambda: a & b, ast.BitXor: lambda: a ^ b,
+                        ast.Pow: lambda: a ** b}[op]()
+            except KeyError:
+                self.fail(e, 'unsupported operator')
+            except (ZeroDivisionError, ValueError, TypeError) as ex:
+                raise ModelledError(f'`{pf.nsrc(e)}` raises {type(ex).__name__} for n = {self.n}')
+        if op in (ast.BitOr, ast.Add, ast.BitXor):
+            x, y = SymInt.of(a), SymInt.of(b)
+            if op is not ast.BitOr and set(x.bits) & set(y.bits):
+                self.fail(e, f'`{pf.nsrc(e)[:50]}` adds overlapping symbolic bit patterns')
+            return x | y
+        if op in (ast.LShift, ast.RShift, ast.Mult) and isinstance(b, int) and not isinstance(b, bool):
+            x = SymInt.of(a)
+            if op is ast.Mult:
+                if b <= 0 or b & (b - 1):
+                    self.fail(e, 'symbolic value multiplied by a non-power-of-two')
+                return x.shift(b.bit_length() - 1)
+            if b < 0:
+                raise ModelledError(f'`{pf.nsrc(e)}`: negative shift count for n = {self.n}')
+            return x.shift(b if op is ast.LShift else -b)
+        if op is ast.Mult and isinstance(a, int) and not isinstance(a, bool) and a > 0 and a & (a - 1) == 0:
+            return SymInt.of(b).shift(a.bit_length() - 1)
+        if op is ast.BitAnd:
+            for x, m in ((a, b), (b, a)):
+                if isinstance(m, int) and not isinstance(m, bool) and m >= 0:
+                    return SymInt.of(x).mask(m)
+        self.fail(e, f'unsupported operation on a symbolic value `{pf.nsrc(e)[:60]}`')
+
+    def call(self, e: ast.Call) -> Any:
+        f = e.func
+        d = pf.dotted(f)
+        if e.keywords and d not in ('enumerate',):
+            self.fail(e, f'keyword arguments in `{pf.nsrc(e)[:60]}`')
+        if isinstance(f, ast.Attribute):
+            base = self.ev(f.value) if not (isinstance(f.value, ast.Name) and f.value.id not in self.env) else None
+            if isinstance(base, _Obj) and base.kind == 'stream':
+                args = [self.ev(a) for a in e.args]
+                if f.attr == 'write_byte':
+                    if len(args) != 1:
+                        self.fail(e, 'write_byte arity')
+                    v = args[0]
+                    if isinstance(v, int) and not isinstance(v, bool) and v < 0:
+                        raise ModelledError(f'write_byte({v}) for n = {self.n}: struct.error')
+                    self.emitted.append((SymInt.of(v), e))
+                return None
+            if isinstance(base, _Obj) and base.kind in ('self', 'fieldtypes'):
+                if f.attr == 'keys' and not e.args:
+                    self.size_sources.add('fields')
+                    return [_Key(k) for k in range(self.n)]
+                if f.attr == 'items' and not e.args:
+                    self.size_sources.add('fields')
+                    return [(_Key(k), _TypeC(k)) for k in range(self.n)]
+                if f.attr == 'values' and not e.args:
+                    self.size_sources.add('fields')
+                    return [_TypeC(k) for k in range(self.n)]
+                if f.attr == '_missing' and len(e.args) == 1:
+                    return self.missing(e, self.ev(e.args[0]))
+            if d in ('HailType._missing',) and len(e.args) == 1:
+                return self.missing(e, self.ev(e.args[0]))
+            if d == 'math.ceil' and len(e.args) == 1:
+                v = self.ev(e.args[0])
+                if isinstance(v, (int, float)):
+                    import math
+                    return math.ceil(v)
+            if isinstance(base, list) and f.attr == 'append' and len(e.args) == 1:
+                base.append(self.ev(e.args[0]))
+                return None
+            self.fail(e, f'unsupported call `{pf.nsrc(e)[:60]}`')
+        if d == 'len' and len(e.args) == 1:
+            v = self.ev(e.args[0])
+            if isinstance(v, _Obj) and v.kind in ('self', 'value', 'fieldtypes'):
+                self.size_sources.add('value' if v.kind == 'value' else 'fields')
+                return self.n
+            if isinstance(v, (list, tuple, range)):
+                return len(v)
+            self.fail(e, f'len of `{pf.nsrc(e.args[0])[:40]}`')
+        if d == 'range' and 1 <= len(e.args) <= 3:
+            args = [self.ev(a) for a in e.args]
+            if all(isinstance(a, int) and not isinstance(a, bool) for a in args):
+                try:
+                    return range(*args)
+                except ValueError as ex:
+                    raise ModelledError(f'`{pf.nsrc(e)}`: {ex}')
+            self.fail(e, 'range over non-integers')
+        if d in ('min', 'max') and e.args:
+            args = [self.ev(a) for a in e.args]
+            if len(args) == 1:
+                args = self.seq_of(args[0], e.args[0])
+            if all(isinstance(a, (int, float)) and not isinstance(a, bool) for a in args) and args:
+                return (min if d == 'min' else max)(args)
+            self.fail(e, f'{d} over non-numbers')
+        if d == 'enumerate' and 1 <= len(e.args) <= 2:
+            start = self.ev(e.args[1]) if len(e.args) == 2 else 0
+            for k in e.keywords:
+                if k.arg == 'start':
+                    start = self.ev(k.value)
+            return [(start + i, x) for i, x in enumerate(self.seq_of(self.ev(e.args[0]), e.args[0]))]
+        if d in ('list', 'tuple') and len(e.args) <= 1:
+            if not e.args:
+                return [] if d == 'list' else ()
+            s = self.seq_of(self.ev(e.args[0]), e.args[0])
+            return s if d == 'list' else tuple(s)
+        if d == 'zip':
+            return list(zip(*[self.seq_of(self.ev(a), a) for a in e.args]))
+        if d == 'reversed' and len(e.args) == 1:
+            return list(reversed(self.seq_of(self.ev(e.args[0]), e.args[0])))
+        if d in ('int', 'bool') and len(e.args) == 1:
+            v = self.ev(e.args[0])
+            if isinstance(v, _Miss):
+                return v
+            if isinstance(v, (int, float, bool)):
+                return int(v) if d == 'int' else bool(v)
+        if d == 'divmod' and len(e.args) == 2:
+            a, b = self.ev(e.args[0]), self.ev(e.args[1])
+            if isinstance(a, int) and isinstance(b, int) and b:
+                return divmod(a, b)
+        if d == 'bytearray' and not e.args:
+            return []
+        self.fail(e, f'unsupported call `{pf.nsrc(e)[:60]}`')
+
+    def missing(self, e: ast.AST, v: Any) -> Any:
+        if isinstance(v, _Elem):
+            return _Miss(v.k)
+        self.fail(e, 'missingness test of something that is not a slot of the value')
+
+    # ---- statements -------------------------------------------------------------------
+    def assign(self, t: ast.AST, v: Any) -> None:
+        if isinstance(t, ast.Name):
+            self.env[t.id] = v
+        elif isinstance(t, (ast.Tuple, ast.List)):
+            vals = self.seq_of(v, t)
+            if len(vals) != len(t.elts) or any(isinstance(x, ast.Starred) for x in t.elts):
+                self.fail(t, 'unpacking mismatch')
+            for x, y in zip(t.elts, vals):
+                self.assign(x, y)
+        elif isinstance(t, ast.Subscript):
+            base = self.ev(t.value)
+            idx = self.ev(t.slice)
+            if isinstance(base, list) and isinstance(idx, int) and -len(base) <= idx < len(base):
+                base[idx] = v
+            else:
+                self.fail(t, 'unsupported store')
+        else:
+            self.fail(t, 'unsupported assignment target')
+
+    def run(self, stmts: Sequence[ast.stmt]) -> None:
+        for st in stmts:
+            self.stmt(st)
+
+    def stmt(self, st: ast.stmt) -> None:
+        self.steps += 1
+        if self.steps > 200000:
+            self.fail(st, 'evaluation does not terminate')
+        if isinstance(st, (ast.Pass, ast.Assert, ast.FunctionDef, ast.AsyncFunctionDef, ast.Import, ast.ImportFrom)):
+            return
+        if isinstance(st, ast.Expr):
+            if isinstance(st.value, ast.Constant):
+                return
+            self.ev(st.value)
+        elif isinstance(st, ast.Assign):
+            v = self.ev(st.value)
+            for t in st.targets:
+                self.assign(t, v)
+        elif isinstance(st, ast.AnnAssign):
+            if st.value is not None:
+                self.assign(st.target, self.ev(st.value))
+        elif isinstance(st, ast.AugAssign):
+            if not isinstance(st.target, (ast.Name, ast.Subscript)):
+                self.fail(st, 'augmented assignment to an attribute')
+            cur = self.ev(st.target)
+            fake = ast.BinOp(left=st.target, op=st.op, right=st.value)
+            ast.copy_location(fake, st)
+            self.assign(st.target, self.binop(fake, cur, self.ev(st.value)))
+        elif isinstance(st, ast.If):
+            t = self.ev(st.test)
+            if isinstance(t, _Miss):
+                self.guarded(st, t.k)
+            elif isinstance(t, SymInt):
+                self.fail(st, 'branch on a symbolic integer')
+            else:
+                self.run(st.body if t else st.orelse)
+        elif isinstance(st, ast.While):
+            n = 0
+            while True:
+                t = self.ev(st.test)
+                if isinstance(t, (_Miss, SymInt)):
+                    self.fail(st, 'loop condition depends on missingness')
+                if not t:
+                    self.run(st.orelse)
+                    break
+                n += 1
+                if n > 5000:
+                    self.fail(st, f'loop does not terminate for n = {self.n}')
+                try:
+                    self.run(st.body)
+                except _Break:
+                    break
+                except _Continue:
+                    continue
+        elif isinstance(st, ast.For):
+            broke = False
+            for item in self.seq_of(self.ev(st.iter), st.iter):
+                self.assign(st.target, item)
+                try:
+                    self.run(st.body)
+                except _Break:
+                    broke = True
+                    break
+                except _Continue:
+                    continue
+            if not broke:
+                self.run(st.orelse)
+        elif isinstance(st, ast.Break):
+            raise _Break()
+        elif isinstance(st, ast.Continue):
+            raise _Continue()
+        elif isinstance(st, ast.Return):
+            raise _Return()
+        else:
+            self.fail(st, f'unsupported statement {type(st).__name__}')
+
+    def guarded(self, st: ast.If, k: int) -> None:
+        """`if missing(slot k): body` - the body may only OR constant bits into integer variables (no stream output)."""
+        if st.orelse:
+            self.fail(st, 'else branch of a missingness test inside the missing-bit computation')
+        before = dict(self.env)
+        n_emit = len(self.emitted)
+        self.run(st.body)
+        if len(self.emitted) != n_emit:
+            self.fail(st, 'stream output under a missingness test inside the missing-bit computation')
+        after = self.env
+        merged = dict(before)
+        for name, new in after.items():
+            old = before.get(name)
+            if new is old:
+                continue
+            if name not in before:
+                continue  # a temporary introduced in the body
+            try:
+                so, sn = SymInt.of(old), SymInt.of(new)
+            except AnalysisError:
+                self.fail(st, f'`{name}` is changed under a missingness test in a way that is not OR-ing bits')
+            so_n, sn_n = so.norm(), sn.norm()
+            delta = {}
+            for b, s in sn_n.items():
+                if b in so_n and so_n[b] == s:
+                    continue
+                if CONST1 in s and CONST1 not in so_n.get(b, frozenset()):
+                    delta[b] = frozenset([k])
+                elif so_n.get(b, frozenset()) <= s:
+                    extra = s - so_n.get(b, frozenset())
+                    if extra - {k}:
+                        self.fail(st, 'conjunction of missingness symbols')
+                    delta[b] = frozenset([k])
+                else:
+                    self.fail(st, f'`{name}` loses bits under a missingness test')
+            if any(b not in sn_n for b in so_n):
+                self.fail(st, f'`{name}` loses bits under a missingness test')
+            merged[name] = so | SymInt(delta)
+        self.env = merged
+
+
+def expected_missing_bytes(n: int) -> List[Dict[int, frozenset]]:
+    return [{j: frozenset([8 * b + j]) for j in range(8) if 8 * b + j < n} for b in range((n + 7) // 8)]
+
+
+def eval_missing_region(info: dict, n: int) -> Tuple[List[Dict[int, frozenset]], Set[str]]:
+    """Symbolic bytes written by the missing-bit region `info` (from Extractor) for a container with n slots."""
+    ev = MissingBitsEval(info['where'], info['selfname'], info['stream'], info['value'], n)
+    try:
+        ev.run(list(info['before']) + list(info['stmts']))
+    except _Return:
+        pass
+    except (_Break, _Continue):
+        raise AnalysisError(f'{info["where"]}: break/continue outside a loop in the missing-bit region')
+    return [s.norm() for s, _ in ev.emitted], ev.size_sources
+
+
+def check_missing_region(info: dict, max_n: int = MAX_N) -> Tuple[Optional[str], Set[str]]:
+    """None when the region writes exactly the engine's missing bytes for every n <= max_n and every missingness vector; otherwise a
+    message with a concrete counter-example.  Also returns which size the region ranges over ('value' = len(value), 'fields')."""
+    sources: Set[str] = set()
+    for n in range(0, max_n + 1):
+        try:
+            got, src = eval_missing_region(info, n)
+        except ModelledError as ex:
+            return f'for a container with n = {n} slots the missing-bit code raises: {ex}', sources
+        sources |= src
+        want = expected_missing_bytes(n)
+        if len(got) != len(want):
+            return (f'for n = {n} slots {len(got)} missing byte(s) are written, the layout has ceil(n/8) = {len(want)}: every later field is read from the wrong offset'), sources
+        for b, (g, w) in enumerate(zip(got, want)):
+            if g == w:
+                continue
+            for bit in sorted(set(g) | set(w)):
+                gs, ws = g.get(bit, frozenset()), w.get(bit, frozenset())
+                if gs == ws:
+                    continue
+                if bit >= 8:
+                    return f'for n = {n} the value handed to write_byte has bit {bit} set (does not fit a byte: struct.error)', sources
+                own = 8 * b + bit
+                extra = sorted(x for x in gs - ws)
+                if extra:
+                    e0 = extra[0]
+                    whose = 'unconditionally' if e0 == CONST1 else f'when slot {e0} is missing'
+                    tgt = f'slot {own}' if own < n else f'no slot (n = {n})'
+                    hint = ' (bits of an earlier byte leak into this one: the accumulator is not reset after it is written)' if e0 != CONST1 and e0 // 8 < b and e0 % 8 == bit else ''
+                    return (f'n = {n}, ' + ('only ' if e0 != CONST1 else '') + (f'slot {e0} missing' if e0 != CONST1 else 'nothing missing') + f': byte {b} of the missing bytes has bit {bit} set {whose}, '
+                            f'but bit {bit} of byte {b} belongs to {tgt}{hint}; the engine (and the Python reader) look up slot e at bit e % 8 of byte e // 8, so '
+                            + (f'slot {own} is decoded as missing and every later value is read from the wrong offset' if own < n else 'the byte differs from the engine layout')), sources
+                lost = sorted(ws - gs)
+                return (f'n = {n}, slot {lost[0]} missing: bit {bit} of byte {b} is not set' + (f' (it is set for slot(s) {sorted(gs)} instead)' if gs else '')
+                        + ': the reader decodes a value for the missing slot and every later value is read from the wrong offset'), sources
+    return None, sources
+
+
+def type_params_passed(classes: Dict[str, ast.ClassDef], cname: str, fn: pf.FuncDef, ctor: ast.Call, vc: ValueClass) -> List[Tuple[str, bool, str]]:
+    """For every constructor parameter of the value class that is also a parameter of the Hail type (same name as a property / attribute of the
+    type class, e.g. Locus(reference_genome=) <-> tlocus.reference_genome, Interval(point_type=) <-> tinterval.point_type): does the decoder pass
+    the type's own value?  [(parameter, ok, what is passed)]"""
+    ms = methods(classes[cname])
+    selfname = param_names(fn)[0] if param_names(fn) else 'self'
+    out: List[Tuple[str, bool, str]] = []
+    eq = methods(vc.cls).get('__eq__')
+    for p in vc.params + vc.kwonly:
+        if p not in ms or 'property' not in pf.decorator_names(ms[p]):
+            continue
+        # only parameters that take part in the value's equality are a necessary condition of "reads back equal"
+        attr = vc.attr_for_param(p)
+        if eq is None or attr is None or not any(isinstance(n, ast.Attribute) and n.attr == attr for n in ast.walk(eq)):
+            continue
+        b = body_wo_doc(ms[p])
+        stored = None
+        if len(b) == 1 and isinstance(b[0], ast.Return) and isinstance(b[0].value, ast.Attribute) and isinstance(b[0].value.value, ast.Name):
+            stored = b[0].value.attr
+        passed = None
+        for a in list(ctor.args) + [k.value for k in ctor.keywords]:
+            try:
+                if vc.param_of_arg(ctor, a) == p:
+                    passed = a
+            except AnalysisError:
+                continue
+        if passed is None:
+            out.append((p, False, 'nothing (the constructor default)'))
+            continue
+        r = pf.resolve_expr(fn, passed)
+        ok = pf.nsrc(r) in (f'{selfname}.{p}',) + ((f'{selfname}.{stored}',) if stored else ())
+        out.append((p, ok, f'`{pf.nsrc(passed)}`'))
+    return out
+
+
+# --------------------------------------------------------------------------------------
+# reader side: which symbol decides whether slot k is decoded?
+# --------------------------------------------------------------------------------------
+#
+# The decoder of a container with N slots is executed by the same interpreter with the missing bytes *symbolic*: bit j of byte b is the
+# symbol s_(8b+j) (0 beyond slot N-1).  A branch on a value computed from them forks; the delegated decode calls reached are logged with
+# the branch decisions they sit under.  The layout demands: ceil(N/8) missing bytes are read first, and the k-th delegated decode is
+# performed exactly when s_k is 0 - whatever idiom (lookup_bit, inline shifts, a helper returning a list of flags) computes that.
+
+
+class _Decoded:
+    def __init__(self, idx: int):
+        self.idx = idx
+
+
+class _CondVal:
+    def __init__(self, guard: tuple, a: Any, b: Any):
+        self.guard, self.a, self.b = guard, a, b
+
+
+class _SymCond:
+    def __init__(self, syms: frozenset, neg: bool = False):
+        self.syms, self.neg = syms, neg
+
+
+class _ReturnV(Exception):
+    def __init__(self, value: Any):
+        self.value = value
+
+
+def _same(a: Any, b: Any) -> bool:
+    if type(a) is not type(b):
+        return False
+    if isinstance(a, SymInt):
+        return a.norm() == b.norm()
+    if isinstance(a, (_Elem, _Key, _TypeC, _Miss)):
+        return a.k == b.k
+    if isinstance(a, _Decoded):
+        return a.idx == b.idx
+    if isinstance(a, _Obj):
+        return a.kind == b.kind
+    if isinstance(a, _CondVal):
+        return a.guard == b.guard and _same(a.a, b.a) and _same(a.b, b.b)
+    if isinstance(a, (list, tuple)):
+        return len(a) == len(b) and all(_same(x, y) for x, y in zip(a, b))
+    if isinstance(a, dict):
+        return set(a) == set(b) and all(_same(a[k], b[k]) for k in a)
+    try:
+        return a == b
+    except Exception:  # noqa: BLE001
+        return False
+
+
+_HELPER_CACHE: Dict[tuple, Any] = {}
+
+
+class MissingBitsReadEval(MissingBitsEval):
+    def __init__(self, m: pf.Module, cls: str, where: str, selfname: str, stream: str, n: int):
+        super().__init__(where, selfname, stream, None, n)
+        self.m, self.cls = m, cls
+        self.events: List[tuple] = []       # ('bytes', k, guards) | ('rec', target, guards, line) | ('i32', guards)
+        self.guards: List[Tuple[frozenset, bool]] = []
+        self.depth = 0
+
+    # ---- symbolic conditions -------------------------------------------------------
+    def as_cond(self, v: Any, node: ast.AST) -> Any:
+        """concrete bool, or _SymCond"""
+        if isinstance(v, _SymCond):
+            return v
+        if isinstance(v, _Miss):
+            return _SymCond(frozenset([v.k]))
+        if isinstance(v, SymInt):
+            syms: Set[int] = set()
+            for s in v.bits.values():
+                syms |= set(s)
+            if CONST1 in syms:
+                return True
+            if not syms:
+                return False
+            return _SymCond(frozenset(syms))
+        if isinstance(v, (_CondVal, _Decoded, _Elem)):
+            self.fail(node, 'branch on a decoded value')
+        return bool(v)
+
+    def ev(self, e: ast.AST) -> Any:
+        if isinstance(e, ast.UnaryOp) and isinstance(e.op, ast.Not):
+            v = self.as_cond(self.ev(e.operand), e)
+            return _SymCond(v.syms, not v.neg) if isinstance(v, _SymCond) else (not v)
+        if isinstance(e, ast.Compare) and len(e.ops) == 1:
+            l, r = self.ev(e.left), self.ev(e.comparators[0])
+            for a, b in ((l, r), (r, l)):
+                if isinstance(a, (SymInt, _Miss)) and isinstance(b, int) and not isinstance(b, bool) and isinstance(e.ops[0], (ast.Eq, ast.NotEq)):
+                    s = SymInt.of(a)
+                    if (set(s.bits) - {0}) and b != 0:
+                        self.fail(e, f'comparison of a multi-bit symbolic value `{pf.nsrc(e)[:60]}`')
+                    c = self.as_cond(s, e)   # non-zero iff some contributing bit is set
+                    if b not in (0, 1):
+                        return isinstance(e.ops[0], ast.NotEq)
+                    want_true = (b == 1) == isinstance(e.ops[0], ast.Eq)
+                    if isinstance(c, _SymCond):
+                        return c if want_true else _SymCond(c.syms, not c.neg)
+                    return c if want_true else (not c)
+            if isinstance(l, (SymInt, _Miss, _SymCond)) or isinstance(r, (SymInt, _Miss, _SymCond)):
+                self.fail(e, f'comparison involving a symbolic value `{pf.nsrc(e)[:60]}`')
+            # fall through to the concrete comparison with the operands already evaluated
+            for x in (l, r):
+                if not isinstance(x, (int, float, str, type(None), _Key)) and not isinstance(x, bool):
+                    self.fail(e, f'comparison involving an opaque value `{pf.nsrc(e)[:60]}`')
+            op = e.ops[0]
+            try:
+                return {ast.Eq: lambda: l == r, ast.NotEq: lambda: l != r, ast.Lt: lambda: l < r, ast.LtE: lambda: l <= r, ast.Gt: lambda: l > r, ast.GtE: lambda: l >= r,
+                        ast.Is: lambda: l is r, ast.IsNot: lambda: l is not r}[type(op)]()
+            except (KeyError, TypeError):
+                self.fail(e, 'unsupported comparison')
+        if isinstance(e, ast.Dict) and not e.keys:
+            return {}
+        if isinstance(e, ast.Subscript) and not isinstance(e.slice, ast.Slice):
+            base = self.ev(e.value)
+            if isinstance(base, dict):
+                idx = self.ev(e.slice)
+                if idx in base:
+                    return base[idx]
+                raise ModelledError(f'`{pf.nsrc(e)}`: KeyError')
+        return super().ev(e)
+
+    def call(self, e: ast.Call) -> Any:
+        f = e.func
+        d = pf.dotted(f)
+        if isinstance(f, ast.Attribute):
+            recv = f.value
+            if isinstance(recv, ast.Name) and recv.id == self.stream_name():
+                args = [self.ev(a) for a in e.args]
+                if f.attr == 'read_int32' and not args:
+                    self.events.append(('i32', list(self.guards)))
+                    self.size_sources.add('value')
+                    return self.n
+                if f.attr in ('read_bytes_view', 'read_bytes') and len(args) == 1:
+                    k = args[0]
+                    if isinstance(k, float) and k == int(k):
+                        k = int(k)
+                    if not isinstance(k, int) or isinstance(k, bool) or k < 0:
+                        self.fail(e, f'byte count `{pf.nsrc(e.args[0])[:40]}` is not a concrete non-negative integer')
+                    self.events.append(('bytes', k, list(self.guards), e.lineno))
+                    return [SymInt({j: frozenset([8 * b + j]) for j in range(8) if 8 * b + j < self.n}) for b in range(k)]
+                self.fail(e, f'stream operation `{f.attr}` in a container decoder')
+            if f.attr == '_convert_from_encoding' and e.args and isinstance(e.args[0], ast.Name) and e.args[0].id == self.stream_name():
+                tgt = self.ev_target(recv)
+                self.events.append(('rec', tgt, list(self.guards), e.lineno))
+                return _Decoded(sum(1 for ev_ in self.events if ev_[0] == 'rec') - 1)
+            if f.attr == 'append' and len(e.args) == 1:
+                base = self.ev(recv)
+                if isinstance(base, list):
+                    base.append(self.ev(e.args[0]))
+                    return None
+            if f.attr == 'tobytes' and not e.args:
+                return self.ev(recv)
+        # helpers that do not receive the stream (lookup_bit, a shared `_is_missing(missing_bytes, i)`, ...): evaluated in place
+        fn = self.resolve_helper(f)
+        if fn is not None:
+            return self.call_user(fn[0], fn[1], e)
+        if d in ('math.ceil',) and len(e.args) == 1:
+            v = self.ev(e.args[0])
+            if isinstance(v, (int, float)):
+                import math
+                return math.ceil(v)
+        if d == 'bool' and len(e.args) == 1:
+            return self.as_cond(self.ev(e.args[0]), e)
+        return super().call(e)
+
+    def stream_name(self) -> str:
+        for k, v in self.env.items():
+            if isinstance(v, _Obj) and v.kind == 'stream':
+                return k
+        return ''
+
+    def ev_target(self, recv: ast.AST) -> str:
+        try:
+            v = self.ev(recv)
+        except AnalysisError:
+            return pf.nsrc(recv)
+        if isinstance(v, _TypeC):
+            return f'field {v.k}'
+        return pf.nsrc(recv)
+
+    def ev_attr_self(self, e: ast.Attribute) -> Any:
+        return None
+
+    def resolve_helper(self, f: ast.AST) -> Optional[Tuple[pf.FuncDef, int]]:
+        if isinstance(f, ast.Name) and f.id in self.env:
+            return None
+        if isinstance(f, ast.Attribute) and not isinstance(f.value, ast.Name):
+            return None
+        key = (id(self.m), self.cls, pf.nsrc(f), isinstance(f, ast.Attribute) and isinstance(self.env.get(f.value.id), _Obj) and self.env[f.value.id].kind)
+        if key not in _HELPER_CACHE:
+            _HELPER_CACHE[key] = self._resolve_helper(f)
+        return _HELPER_CACHE[key]
+
+    def _resolve_helper(self, f: ast.AST) -> Optional[Tuple[pf.FuncDef, int]]:
+        all_cls = {c.name: c for c in self.m.tree.body if isinstance(c, ast.ClassDef)}
+
+        def mro(cn: str, meth: str, seen=()) -> Optional[pf.FuncDef]:
+            c = all_cls.get(cn)
+            if c is None or cn in seen:
+                return None
+            ms = methods(c)
+            if meth in ms:
+                return ms[meth]
+            for b in c.bases:
+                d_ = pf.dotted(b)
+                if d_ in all_cls:
+                    r = mro(d_, meth, seen + (cn,))
+                    if r is not None:
+                        return r
+            return None
+
+        if isinstance(f, ast.Name) and f.id not in self.env:
+            for st in self.m.tree.body:
+                if isinstance(st, ast.FunctionDef) and st.name == f.id:
+                    return st, 0
+            origin = self.m.imports().get(f.id)
+            if origin:
+                parts = origin.lstrip('.').split('.')
+                level = len(origin) - len(origin.lstrip('.'))
+                base_dir = self.m.rel.split('/')[:-1]
+                if level:
+                    base_dir = base_dir[:len(base_dir) - (level - 1)]
+                    cand = '/'.join(base_dir + parts[:-1]) + '.py'
+                else:
+                    cand = 'hail/python/' + '/'.join(parts[:-1]) + '.py'
+                try:
+                    om = pf.load(cand)
+                    if om.has_func(parts[-1]):
+                        return om.func(parts[-1]), 0
+                except AnalysisError:
+                    return None
+            return None
+        if isinstance(f, ast.Attribute) and isinstance(f.value, ast.Name) and f.attr not in ('_convert_from_encoding', '_missing'):
+            if isinstance(self.env.get(f.value.id), _Obj) and self.env[f.value.id].kind == 'self':
+                fn = mro(self.cls, f.attr)
+                if fn is not None and not any(d_ in ('property', 'classmethod') for d_ in pf.decorator_names(fn)):
+                    return fn, (0 if 'staticmethod' in pf.decorator_names(fn) else 1)
+            elif f.value.id in all_cls and f.value.id not in self.env:
+                fn = mro(f.value.id, f.attr)
+                if fn is not None and 'staticmethod' in pf.decorator_names(fn):
+                    return fn, 0
+        return None
+
+    def call_user(self, fn: pf.FuncDef, skip: int, e: ast.Call) -> Any:
+        if self.depth > 6:
+            self.fail(e, 'helper calls nested too deep')
+        a = fn.args
+        if a.vararg or a.kwarg or a.posonlyargs:
+            self.fail(e, f'helper {fn.name} with star parameters')
+        params = [x.arg for x in a.args]
+        vals: Dict[str, Any] = {}
+        if skip:
+            vals[params[0]] = _Obj('self')
+        pos = [self.ev(x) for x in e.args]
+        if len(pos) > len(params) - skip:
+            self.fail(e, f'too many arguments for {fn.name}')
+        for p, v in zip(params[skip:], pos):
+            vals[p] = v
+        for k in e.keywords:
+            if k.arg is None or k.arg not in params or k.arg in vals:
+                self.fail(e, f'bad keyword for {fn.name}')
+            vals[k.arg] = self.ev(k.value)
+        defaults = dict(zip(params[len(params) - len(a.defaults):], a.defaults))
+        saved = self.env
+        for p in params:
+            if p not in vals:
+                if p not in defaults:
+                    self.fail(e, f'argument {p} of {fn.name} unbound')
+                self.env = {}
+                vals[p] = self.ev(defaults[p])
+        self.env = dict(vals)
+        if any(isinstance(v, _Obj) and v.kind == 'stream' for v in vals.values()):
+            pass
+        self.depth += 1
+        try:
+            self.run(body_wo_doc(fn))
+            ret = None
+        except _ReturnV as r:
+            ret = r.value
+        finally:
+            self.depth -= 1
+            self.env = saved
+        return ret
+
+    # ---- statements ------------------------------------------------------------------
+    def stmt(self, st: ast.stmt) -> None:
+        if isinstance(st, ast.Return):
+            raise _ReturnV(self.ev(st.value) if (st.value is not None and self.depth > 0) else None)
+        if isinstance(st, ast.If):
+            c = self.as_cond(self.ev(st.test), st)
+            if isinstance(c, _SymCond):
+                self.fork(st, c)
+                return
+            self.run(st.body if c else st.orelse)
+            return
+        if isinstance(st, ast.Assign) and len(st.targets) == 1 and isinstance(st.targets[0], ast.Subscript):
+            base = self.ev(st.targets[0].value)
+            if isinstance(base, dict):
+                base[self.ev(st.targets[0].slice)] = self.ev(st.value)
+                return
+        if isinstance(st, ast.Raise):
+            raise ModelledError(f'raises `{pf.nsrc(st)[:60]}`')
+        super().stmt(st)
+
+    def fork(self, st: ast.If, c: _SymCond) -> None:
+        if len(self.guards) >= 3:
+            self.fail(st, 'symbolic branches nested too deep')
+        snap = copy.deepcopy(self.env)
+        self.guards.append((c.syms, not c.neg))
+        try:
+            self.run(st.body)
+        finally:
+            self.guards.pop()
+        env_then = self.env
+        self.env = snap
+        self.guards.append((c.syms, c.neg))
+        try:
+            self.run(st.orelse)
+        finally:
+            self.guards.pop()
+        env_else = self.env
+        g = (c.syms, not c.neg)
+        merged: Dict[str, Any] = {}
+        for k in set(env_then) | set(env_else):
+            if k in env_then and k in env_else:
+                merged[k] = self.merge(g, env_then[k], env_else[k], st)
+            # a name bound on one side only is a temporary of that branch
+        self.env = merged
+
+    def merge(self, g: tuple, a: Any, b: Any, st: ast.AST) -> Any:
+        if _same(a, b):
+            return a
+        if isinstance(a, list) and isinstance(b, list):
+            if len(a) != len(b):
+                self.fail(st, 'the two outcomes of a missingness test leave sequences of different lengths')
+            return [self.merge(g, x, y, st) for x, y in zip(a, b)]
+        if isinstance(a, dict) and isinstance(b, dict):
+            if set(a) != set(b):
+                self.fail(st, 'the two outcomes of a missingness test fill different keys')
+            return {k: self.merge(g, a[k], b[k], st) for k in a}
+        return _CondVal(g, a, b)
+
+
+def check_missing_reader(m: pf.Module, cls: str, fn: pf.FuncDef, max_n: int = MAX_N) -> Tuple[Optional[str], Set[str], int]:
+    """Evaluate the decoder `fn` (helpers that receive the stream already inlined) for n = 0..max_n slots with symbolic missing bytes.
+    Returns (None | counter-example message, sizes consulted, number of delegated decodes seen for the largest n)."""
+    ps = param_names(fn)
+    where = f'{m.rel}::{cls}.{fn.name}'
+    if len(ps) < 2:
+        raise AnalysisError(f'{where}: unrecognised parameter list')
+    sources: Set[str] = set()
+    n_rec = 0
+    for n in range(0, max_n + 1):
+        ev = MissingBitsReadEval(m, cls, where, ps[0], ps[1], n)
+        # remaining parameters take their (constant) defaults
+        pos = fn.args.posonlyargs + fn.args.args
+        for a, d in zip(pos[len(pos) - len(fn.args.defaults):], fn.args.defaults):
+            if a.arg not in ev.env and isinstance(d, ast.Constant):
+                ev.env[a.arg] = d.value
+        try:
+            ev.run(body_wo_doc(fn))
+        except _ReturnV:
+            pass
+        except (_Return, _Break, _Continue):
+            raise AnalysisError(f'{where}: control flow escapes the function body')
+        except ModelledError as ex:
+            return f'for a container with n = {n} slots the decoder raises: {ex}', sources, n_rec
+        sources |= ev.size_sources
+        byt = [e for e in ev.events if e[0] == 'bytes']
+        recs = [e for e in ev.events if e[0] == 'rec']
+        n_rec = len(recs)
+        want_bytes = (n + 7) // 8
+        if len(byt) != 1 or byt[0][2]:
+            if not (n == 0 and not byt):
+                return f'for n = {n} slots the decoder reads the missing bytes {len(byt)} time(s)' + (' under a condition' if byt and byt[0][2] else '') + ' (expected once, unconditionally)', sources, n_rec
+        if byt and byt[0][1] != want_bytes:
+            return (f'for n = {n} slots the decoder reads {byt[0][1]} missing byte(s), the writer (and the engine) emit ceil(n/8) = {want_bytes}: every value after them is read from the wrong offset'), sources, n_rec
+        if byt and ev.events.index(byt[0]) > min([ev.events.index(r) for r in recs] or [10**9]):
+            return f'for n = {n} the missing bytes are read after the first value', sources, n_rec
+        if len(recs) != n:
+            return f'for n = {n} slots the decoder reaches {len(recs)} delegated decode call(s) (expected one per slot, each skipped when its slot is missing)', sources, n_rec
+        for k, r in enumerate(recs):
+            guards = r[2]
+            if r[1].startswith('field ') and r[1] != f'field {k}':
+                return f'n = {n}: the {k}-th value is decoded with the type of {r[1]}', sources, n_rec
+            if guards == [(frozenset([k]), False)]:
+                continue
+            if not guards:
+                return (f'n = {n}: slot {k} is decoded unconditionally (its missing bit is never consulted): when slot {k} is missing the decoder consumes the bytes of the next value'), sources, n_rec
+            desc = ' and '.join(('any of ' if len(s) > 1 else '') + 'slot ' + '/'.join(str(x) for x in sorted(s)) + (' missing' if pol else ' present') for s, pol in guards)
+            g0 = guards[0]
+            others = sorted(set(g0[0]) - {k})
+            if len(guards) == 1 and g0[1] is False and k in g0[0] and others:
+                cex = f'with only slot {others[0]} missing, slot {k} is treated as missing too (its value is skipped and every later value is read from the wrong offset)'
+            elif len(guards) == 1 and g0[1] is False and k not in g0[0]:
+                cex = f'slot {k} is decoded according to the missing bit of slot {sorted(g0[0])[0]}'
+            elif len(guards) == 1 and g0[1] is True:
+                cex = f'slot {k} is decoded exactly when its missing bit says it is absent'
+            else:
+                cex = 'the decision does not depend on the bit of this slot alone'
+            return (f'n = {n}: the value of slot {k} is decoded when [{desc}], but the layout says: decoded iff bit {k % 8} of missing byte {k // 8} is 0 - {cex}'), sources, n_rec
+    return None, sources, n_rec
